@@ -1404,6 +1404,14 @@ class Engine:
         return out
 
     def subscript(self, cont: V, key: V, st: State, node) -> List[Tuple[State, Any]]:
+        if isinstance(cont, VOpt):
+            t, f = self.branch(st, cont.is_none, node)
+            out = []
+            if t is not None:
+                out.append((t, Raised("TypeError")))
+            if f is not None:
+                out.extend(self.subscript(cont.val, key, f, node))
+            return out
         if isinstance(cont, VTuple):
             if isinstance(key, VPy) and isinstance(key.obj, int):
                 if -len(cont.items) <= key.obj < len(cont.items):
